@@ -1,6 +1,8 @@
 package main
 
 import (
+	"go/constant"
+	"math/big"
 	"regexp"
 	"strconv"
 	"fmt"
@@ -33,6 +35,7 @@ type Engine struct {
 	bounds   map[boundKey]*Term
 	typeByString map[string]types.Type
 	tables   map[string]*Term
+	writtenGlobals map[*ssa.Global]bool
 	tableVals map[string][]int64
 	maxDepth int
 	genSrc   map[string]string
@@ -238,11 +241,139 @@ func (e *Engine) makeLimit(et types.Type) uint64 {
 
 // constTable returns the constant contents of a package-level table, if registered.
 func (e *Engine) constTable(g *ssa.Global) *Term {
-	k := g.Pkg.Pkg.Name() + "." + g.Name()
+	k := fmt.Sprintf("%s.%s#%d", g.Pkg.Pkg.Name(), g.Name(), floatMode)
 	if t, ok := e.tables[k]; ok {
 		return t
 	}
+	t := e.literalTable(g)
+	e.tables[k] = t
+	return t
+}
+
+// literalTable: a package-level array variable initialised by a composite literal of constants
+// (never assigned elsewhere: checked by globalsWritten per unit and by writtenGlobals program-wide).
+func (e *Engine) literalTable(g *ssa.Global) *Term {
+	if e.writtenGlobals == nil {
+		e.writtenGlobals = map[*ssa.Global]bool{}
+		for fn := range ssautil.AllFunctions(e.prog) {
+			if fn.Name() == "init" && fn.Pkg == g.Pkg && fn.Synthetic != "" {
+				continue // the package initialiser performs the literal's stores
+			}
+			for _, b := range fn.Blocks {
+				for _, ins := range b.Instrs {
+					st, ok := ins.(*ssa.Store)
+					if !ok {
+						continue
+					}
+					addr := st.Addr
+					for {
+						switch a := addr.(type) {
+						case *ssa.IndexAddr:
+							addr = a.X
+							continue
+						case *ssa.FieldAddr:
+							addr = a.X
+							continue
+						}
+						break
+					}
+					if gg, ok := addr.(*ssa.Global); ok {
+						e.writtenGlobals[gg] = true
+					}
+				}
+			}
+		}
+	}
+	if e.writtenGlobals[g] {
+		return nil
+	}
+	var lp *packages.Package
+	for _, p := range e.lpkgs {
+		if p.Types == g.Pkg.Pkg {
+			lp = p
+		}
+	}
+	if lp == nil {
+		return nil
+	}
+	for _, f := range lp.Syntax {
+		for _, d := range f.Decls {
+			gd, ok := d.(*ast.GenDecl)
+			if !ok || gd.Tok != token.VAR {
+				continue
+			}
+			for _, sp := range gd.Specs {
+				vs := sp.(*ast.ValueSpec)
+				for i, nm := range vs.Names {
+					if nm.Name != g.Name() || i >= len(vs.Values) {
+						continue
+					}
+					cl, ok := vs.Values[i].(*ast.CompositeLit)
+					if !ok {
+						return nil
+					}
+					return e.tableFromLit(g.Name(), cl, lp, g.Type().Underlying().(*types.Pointer).Elem())
+				}
+			}
+		}
+	}
 	return nil
+}
+
+func (e *Engine) tableFromLit(name string, cl *ast.CompositeLit, lp *packages.Package, t types.Type) *Term {
+	at, ok := t.Underlying().(*types.Array)
+	if !ok {
+		return nil
+	}
+	n := int(at.Len())
+	if n == 0 || n > 4096 {
+		return nil
+	}
+	vals := make([]*Term, n)
+	es := sortOf(at.Elem())
+	for i := range vals {
+		vals[i] = zeroOfSort(es)
+	}
+	pos := 0
+	for _, el := range cl.Elts {
+		ex := el
+		if kv, ok := el.(*ast.KeyValueExpr); ok {
+			tv, ok := lp.TypesInfo.Types[kv.Key]
+			if !ok || tv.Value == nil {
+				return nil
+			}
+			k, _ := constant.Int64Val(tv.Value)
+			pos = int(k)
+			ex = kv.Value
+		}
+		if pos >= n {
+			return nil
+		}
+		if sub, ok := ex.(*ast.CompositeLit); ok {
+			st := e.tableFromLit(fmt.Sprintf("%s_%d", name, pos), sub, lp, at.Elem())
+			if st == nil {
+				return nil
+			}
+			vals[pos] = st
+		} else {
+			tv, ok := lp.TypesInfo.Types[ex]
+			if !ok || tv.Value == nil {
+				return nil
+			}
+			switch {
+			case isInteger(at.Elem()):
+				bi, _ := new(big.Int).SetString(constant.ToInt(tv.Value).ExactString(), 10)
+				vals[pos] = BVLitBig(bi, es.W)
+			case isFloat(at.Elem()):
+				f, _ := constant.Float64Val(tv.Value)
+				vals[pos] = fpLit(f)
+			default:
+				return nil
+			}
+		}
+		pos++
+	}
+	return ConstTable(name, es, vals)
 }
 
 
@@ -276,6 +407,14 @@ func (e *Engine) newCtx(name string, ct *Contract) *Ctx {
 			floatMode = 2
 		case ct.Flags["fpcmp"] != "":
 			floatMode = 1
+		}
+	}
+	if ct != nil {
+		if ct.Flags["inlinecalls"] != "" {
+			c.forceInline = true
+		}
+		if v := ct.Flags["unrollcalls"]; v != "" {
+			fmt.Sscanf(v, "%d", &c.defaultUnroll)
 		}
 	}
 	c.alive0 = FreshVar("alive0", SArray(SRef, SBool))
